@@ -106,6 +106,18 @@ EncSubId(v) == LET d == B128(v) IN [i \in 1..Len(d) |-> IF i < Len(d) THEN d[i] 
 RECURSIVE EncSubIds(_)
 EncSubIds(arcs) == IF arcs = <<>> THEN <<>> ELSE EncSubId(Head(arcs)) \o EncSubIds(Tail(arcs))
 
+(* sub-identifier of an arc given as a Bytes number (arcs beyond 31 bits): base-128 digits by 7-bit shifts *)
+RECURSIVE B128B(_)
+B128B(v) == LET t == Strip(v) IN
+            IF t = <<>> THEN <<0>>
+            ELSE IF Len(t) = 1 /\ t[1] < 128 THEN <<t[1]>>
+            ELSE B128B(Shr(t, 7)) \o <<t[Len(t)] % 128>>
+EncSubIdB(v) == LET d == B128B(v) IN [i \in 1..Len(d) |-> IF i < Len(d) THEN d[i] + 128 ELSE d[i]]
+RECURSIVE EncSubIdsB(_)
+EncSubIdsB(arcs) == IF arcs = <<>> THEN <<>> ELSE EncSubIdB(Head(arcs)) \o EncSubIdsB(Tail(arcs))
+(* OID whose arcs after the first two are Bytes numbers *)
+EncOidB(first, second, rest) == EncTLV(6, EncSubId(40 * first + second) \o EncSubIdsB(rest))
+
 OidValid(arcs) == /\ Len(arcs) >= 2
                   /\ \/ arcs[1] \in {0, 1} /\ arcs[2] \in 0..39
                      \/ arcs[1] = 2 /\ arcs[2] >= 0
